@@ -43,6 +43,11 @@ type c01Case struct {
 	// allows and crypto/tls does. How the end of the connection is reported
 	// has no bearing on a message that arrived in full.
 	FinalEOF bool `json:"final_eof,omitempty"`
+	// Prior: "data" - an earlier, complete DATA transaction on the same
+	// connection; "data+starttls" - the same in the clear, then STARTTLS, the
+	// judged message inside TLS. What a connection carried before has no
+	// bearing on the next message.
+	Prior string `json:"prior,omitempty"`
 }
 
 // maxStretch is the length of the longest run of octets that ends in LF (the
@@ -94,8 +99,15 @@ func c01Run(c c01Case) Verdict {
 	if pause {
 		cfg.WriteTimeoutMs = 60
 	}
-	if c.TLS && !pause {
+	prior := c.Prior
+	if pause || c.FinalEOF {
+		prior = ""
+	}
+	if c.TLS && !pause && prior != "data+starttls" {
 		cfg.TLS = "implicit"
+	}
+	if prior == "data+starttls" {
+		cfg.TLS = "starttls"
 	}
 	finalEOF := c.FinalEOF && !pause && !c.TLS
 	cfg.EOFWithData = finalEOF
@@ -107,8 +119,39 @@ func c01Run(c c01Case) Verdict {
 		w.Finish()
 		return Verdict{Inconclusive: "dial: " + derr.Error()}
 	}
+	nprior := 0
+	if prior != "" {
+		nprior = 1
+		if _, e := openData(w, cfg.LMTP, 1); e != "" {
+			w.Finish()
+			return Verdict{Inconclusive: "earlier transaction: " + e}
+		}
+		earlier := "an earlier message\r\n..with a dot line\r\n.\r\n"
+		if cfg.MaxMessageBytes > 0 && cfg.MaxMessageBytes < 40 {
+			earlier = ".\r\n" // the empty message fits every limit
+		}
+		out, st := w.Exchange([]byte(earlier))
+		if prs, err := harness.ParseReplies(out); st != harness.QIdle || err != nil || len(prs) != 1 || prs[0].Class() != 2 {
+			w.Finish()
+			return Verdict{Inconclusive: fmt.Sprintf("earlier transaction not accepted: %s %v %v", st, err, codes(prs))}
+		}
+		if prior == "data+starttls" {
+			out, st := w.Exchange([]byte("STARTTLS\r\n"))
+			if prs, err := harness.ParseReplies(out); st != harness.QIdle || err != nil || len(prs) != 1 || prs[0].Code != 220 {
+				w.Finish()
+				return Verdict{Inconclusive: fmt.Sprintf("STARTTLS not accepted: %s %v %v", st, err, codes(prs))}
+			}
+			if err := w.StartTLS(); err != nil {
+				w.Finish()
+				return Verdict{Inconclusive: "TLS handshake: " + err.Error()}
+			}
+		}
+	}
 	if _, e := openData(w, cfg.LMTP, 1); e != "" {
 		w.Finish()
+		if prior != "" {
+			return failf("after-earlier-transaction", "after an earlier DATA transaction (%s) the next one could not be opened: %s", prior, e)
+		}
 		return Verdict{Inconclusive: e}
 	}
 	if pause {
@@ -166,10 +209,13 @@ func c01Run(c c01Case) Verdict {
 		v.Classes = append(v.Classes, "exactly_at_size_limit")
 	}
 	des := dataEvents(r.B.Events())
-	if len(des) < 1 {
+	if len(des) < 1+nprior {
 		return failf("no-data-call", "backend Data was not called (or did not return); trace: %s", traceString(r.B.Events()))
 	}
-	rec := des[0].Data
+	if prior != "" {
+		v.Classes = append(v.Classes, "after_"+prior)
+	}
+	rec := des[nprior].Data
 	if over {
 		// the message does not fit: what the reader hands over is a prefix
 		// and it never claims to be complete
@@ -248,6 +294,9 @@ func c01Gen(t *rapid.T) c01Case {
 	}
 	c.TLS = rapid.IntRange(0, 7).Draw(t, "tls") == 0
 	c.FinalEOF = rapid.IntRange(0, 3).Draw(t, "final_eof") == 0
+	if !c.FinalEOF && rapid.IntRange(0, 3).Draw(t, "prior") == 0 {
+		c.Prior = rapid.SampledFrom([]string{"data", "data+starttls"}).Draw(t, "prior_kind")
+	}
 	// a few paused transfers (each costs its pause in wall-clock time)
 	if len(stream) > 2 && rapid.IntRange(0, 999).Draw(t, "pause")%150 == 7 {
 		c.PauseAt = rapid.IntRange(1, len(stream)-1).Draw(t, "pause_at")
@@ -312,7 +361,7 @@ func c01LimitVariants(word []byte, read int) []c01Case {
 
 func TestC01(t *testing.T) {
 	registerAll()
-	st.Rule = "cases = (DATA octet stream, segmentation, backend read sizes, mode, size limit above/at/below the message length, line limit no smaller than the longest LF-delimited stretch, optionally a pause longer than the server's WriteTimeout in mid-message); exhaustive part: all words over {'.',CR,LF,'x'} up to the length bound, each closed with the shortest legal end marker, the shorter ones also under every size limit from 1 to their length; non-trivial = body has a line-start dot, a bare CR, a bare LF or an end-marker look-alike; distinct = hash of the whole case"
+	st.Rule = "cases = (DATA octet stream, segmentation, backend read sizes, mode, size limit above/at/below the message length, line limit no smaller than the longest LF-delimited stretch, optionally a pause longer than the server's WriteTimeout in mid-message, optionally after an earlier DATA transaction on the same connection - in the clear before a STARTTLS upgrade, or not); exhaustive part: all words over {'.',CR,LF,'x'} up to the length bound, each closed with the shortest legal end marker, the shorter ones also under every size limit from 1 to their length; non-trivial = body has a line-start dot, a bare CR, a bare LF or an end-marker look-alike; distinct = hash of the whole case"
 	if !regress(t, "C01") {
 		return
 	}
